@@ -31,6 +31,7 @@ pub enum CompileErrorKind {
     TooManyRegisters,
     TooManyArguments,
     TooManyUpvalues,
+    TooManyGlobals,
     BreakOutsideLoop,
     ContinueOutsideLoop,
     ReturnOutsideFunction,
